@@ -27,7 +27,8 @@ ASSUMPTIONS = [
 OBLIGATIONS = {"poly:star": 20, "poly:selfintersecting": 20, "poly:lattice": 20,
                "poly:repeated-vertex": 5, "pt:inside": 500, "pt:outside-in-bbox": 300,
                "pt:outside-bbox": 100, "pt:level-with-vertex": 200, "meta": 100,
-               "cells_inside_polygon": 10, "inside-buffer": 50, "options": 50}
+               "cells_inside_polygon": 10, "inside-buffer": 50, "options": 50,
+               "poly:far-from-origin": 20, "poly:far-open>3": 10}
 
 
 def P():
@@ -99,7 +100,20 @@ def gen_polygon(rng, it):
         j = int(rng.integers(0, len(poly)))
         poly = np.insert(poly, j, poly[j], axis=0)
         rep = True
+    if it % 7 in (3, 5):
+        # map coordinates: a polygon of ordinary size far from the origin (projected
+        # metres, or degrees of longitude / latitude)
+        size = float(max(poly.max(axis=0) - poly.min(axis=0))) or 1.0
+        if size < 1.0:
+            poly = poly * (2.0 ** math.ceil(math.log2(1.0 / size)))
+        off = FAR[(it // 7) % len(FAR)]
+        poly = poly + np.array(off)
+        tag = tag + "+far"
     return np.ascontiguousarray(poly, dtype=float), tag, rep
+
+
+FAR = [(6.5e5, 5.8e6), (-3e6, 1e7), (1e5, 2e5), (144.5, -37.25), (2 ** 20, -2 ** 22),
+       (5e7, 5e7)]
 
 
 def gen_points(rng, poly, lattice):
@@ -115,7 +129,8 @@ def gen_points(rng, poly, lattice):
     pts.append(np.column_stack([vx, rng.uniform(lo[1] - 0.2 * size, hi[1] + 0.2 * size,
                                                 size=10)]))
     if lattice:
-        pts.append(rng.integers(-10, 11, size=(40, 2)) / 2.0)
+        c0 = np.round((lo + hi) / 2)
+        pts.append(c0 + rng.integers(-10, 11, size=(40, 2)) / 2.0)
     return np.ascontiguousarray(np.vstack(pts), dtype=float), size
 
 
@@ -124,7 +139,12 @@ def run_case(ctx, case):
     poly = np.ascontiguousarray(case["polygon"], dtype=float)
     pts = np.ascontiguousarray(case["points"], dtype=float)
     ctx.evaluated()
-    ctx.tag(case.get("tag", "poly:lattice"))
+    tg = case.get("tag", "poly:lattice")
+    ctx.tag(tg.replace("+far", ""))
+    if tg.endswith("+far"):
+        ctx.tag("poly:far-from-origin")
+        if len(poly) > 3 and not np.array_equal(poly[0], poly[-1]):
+            ctx.tag("poly:far-open>3")
     if case.get("repeated"):
         ctx.tag("poly:repeated-vertex")
     lo, hi = poly.min(axis=0), poly.max(axis=0)
@@ -238,7 +258,7 @@ def run(ctx):
             ctx.notes.append(f"stopped at {it0}")
             break
         poly, tag, rep = gen_polygon(rng, it)
-        pts, size = gen_points(rng, poly, tag == "poly:lattice")
+        pts, size = gen_points(rng, poly, tag.startswith("poly:lattice"))
         case = {"kind": "pip", "polygon": poly, "points": pts, "tag": tag,
                 "repeated": rep, "seed": int(rng.integers(0, 2 ** 31))}
         run_case(ctx, case)
@@ -246,11 +266,12 @@ def run(ctx):
             ctx.sample({"polygon": poly, "points": pts[:5], "tag": tag})
         if it0 % 4 == 0:
             poly2 = rng.integers(0, 9, size=(int(rng.integers(3, 9)), 2)).astype(float)
-            run_cells_case(ctx, {"kind": "cells", "polygon": poly2,
+            off = np.array(FAR[(it0 // 8) % len(FAR)]) if it0 % 8 == 0 else np.zeros(2)
+            run_cells_case(ctx, {"kind": "cells", "polygon": poly2 + off,
                                  "nrows": int(rng.integers(1, 12)),
                                  "ncols": int(rng.integers(1, 12)),
-                                 "xll": float(rng.integers(-2, 3)),
-                                 "yll": float(rng.integers(-2, 3)),
+                                 "xll": float(rng.integers(-2, 3)) + off[0],
+                                 "yll": float(rng.integers(-2, 3)) + off[1],
                                  "csz": [1.0, 0.5, 0.7][it % 3]})
 
 
